@@ -222,11 +222,23 @@ impl<W: 'static, R: 'static, T: 'static> XGenerator<W, R, T> {
             }),
             Self::Repeat(gen) => either_i({
                 let gen = to_native!(gen, Self);
-                iter::repeat_with(move || {
-                    let inner: BIter<_, _, _> = Box::new(gen._iter(ns, rt.clone()));
-                    inner
+                let mut current: Option<BIter<_, _, _>> = None;
+                let mut yielded_in_pass = false;
+                iter::from_fn(move || loop {
+                    let inner = current.get_or_insert_with(|| {
+                        yielded_in_pass = false;
+                        Box::new(gen._iter(ns, rt.clone()))
+                    });
+                    match inner.next() {
+                        Some(v) => {
+                            yielded_in_pass = true;
+                            break Some(v);
+                        }
+                        // repeating an empty generator yields nothing (instead of spinning)
+                        None if !yielded_in_pass => break None,
+                        None => current = None,
+                    }
                 })
-                .flatten()
             }),
             Self::TakeWhile(gen, func) => either_j({
                 let inner: BIter<_, _, _> = Box::new(to_native!(gen, Self)._iter(ns, rt.clone()));
